@@ -207,6 +207,19 @@ def reported_costs(run, ct, rng, quick):
                 o = ct.RandomGreedyOptimizer(max_repeats=3, seed=seed, parallel=False)
                 t = o.search(inp, out, size)
                 entries.append(("RandomGreedyOptimizer.best_flops", o.best_ssa_path, 10 ** o.best_flops))
+                entries.append(("RandomGreedyOptimizer.search returned tree", None, 10 ** o.best_flops, t))
+                # the same object asked again for the same contraction (it accumulates its best over calls): what it
+                # hands back each time must be what its reported cost belongs to
+                o2 = ct.RandomGreedyOptimizer(max_repeats=2, seed=seed, parallel=False, temperature=rng.choice([0.01, 1.0, 3.0]))
+                for k in range(4):
+                    how = rng.choice(["search", "call", "ssa_path"])
+                    if how == "search":
+                        rt = o2.search(inp, out, size)
+                    elif how == "call":
+                        rt = ct.ContractionTree.from_path(inp, out, size, path=o2(inp, out, size))
+                    else:
+                        rt = ct.ContractionTree.from_path(inp, out, size, ssa_path=o2.ssa_path(inp, out, size))
+                    entries.append((f"RandomGreedyOptimizer call {k + 1} ({how}) returned path vs best_flops", None, 10 ** o2.best_flops, rt))
                 ro = ct.ReusableRandomGreedyOptimizer(max_repeats=3, seed=seed, parallel=False)
                 tr = ro.search(inp, out, size)
                 h = ro.hash_query(inp, out, size)[0]
